@@ -41,6 +41,7 @@ type Profile struct {
 	SplitPct          int    // ... in this percentage of the cases only
 	LenientValidators bool   // in a third of the cases the consumers' validators do not object to a missing block
 	NoRejects         bool   // correct validators never reject good blocks
+	ProoflessSyncs    bool   // one node's syncs come without the proof of the synced block half of the time (UpdateState(block, nil))
 	HonestOnly        bool   // no Byzantine ids at all
 	KeepTrace         bool
 	AdvWeights        map[string]int // optional strategy weights override
@@ -229,6 +230,7 @@ type sched struct {
 	partUntil                          int
 	starve                             string
 	starveUntil                        int
+	proofless                          string // this node's syncs sometimes come without the proof of the synced block
 }
 
 // RunCase executes one case of a workload.
@@ -281,6 +283,7 @@ func RunCase(seed int64, p *Profile, idx int) *Result {
 		fn := w.Nodes[w.Order[rng.Intn(len(w.Order))]]
 		salt := rng.Intn(1000)
 		fn.FailCommit = func(h uint64) bool { return (int(h)*7+salt)%3 == 0 }
+		fn.PanicCommit = salt%4 == 0 // the consumer's callback panics instead of returning an error
 	}
 	s := &sched{pDrop: rng.Intn(12), pDup: rng.Intn(10), pTimeout: 1 + rng.Intn(8), pSync: rng.Intn(3)}
 	if p.CommitFailures {
@@ -298,6 +301,9 @@ func RunCase(seed int64, p *Profile, idx int) *Result {
 			s.partition[id] = rng.Intn(2)
 		}
 		s.partUntil = p.MaxSteps/4 + rng.Intn(p.MaxSteps/2)
+	}
+	if p.ProoflessSyncs {
+		s.proofless = w.Order[rng.Intn(len(w.Order))]
 	}
 	if rng.Intn(5) == 0 {
 		s.starve = w.Order[rng.Intn(len(w.Order))]
@@ -430,6 +436,11 @@ func (w *World) randomStep(s *sched, adv *Adversary, step int) string {
 		sort.Slice(hs, func(i, j int) bool { return hs[i] < hs[j] })
 		h := hs[r.Intn(len(hs))]
 		c := w.Canon[h]
+		if n.Id == s.proofless && r.Intn(2) == 0 {
+			w.Mon.Stats["syncs without the proof of the synced block"]++
+			w.SyncNode(n, c.Block, nil)
+			return fmt.Sprintf("s%s%d-", n.Id, h)
+		}
 		w.SyncNode(n, c.Block, c.Proof)
 		return fmt.Sprintf("s%s%d", n.Id, h)
 	}
